@@ -48,6 +48,10 @@ class Source:
             body = node.body
         if not isinstance(node, ast.FunctionDef):
             raise Reject(f"{rel}:{qual}", "not a function")
+        # a decorator can change what the body means (memoisation, wrapping): only the structural ones are accepted
+        for d in node.decorator_list:
+            if ast.unparse(d) not in ("classmethod", "staticmethod", "property", "abstractmethod"):
+                raise Reject(f"{rel}:{qual}", f"decorated with @{ast.unparse(d)[:60]}")
         return node
 
 
